@@ -17,10 +17,11 @@ type stats struct {
 	lifetimeConnections uint64
 }
 
+// The connection slot is taken by reserveConnection already when the
+// connection is accepted.
 func (s *stats) incrementConnections() {
 	defer s.logServerStats()
 	s.mutex.Lock()
-	s.currentConnections++
 	s.lifetimeConnections++
 	s.mutex.Unlock()
 }
@@ -53,7 +54,11 @@ func (s *stats) logServerStats() {
 	dlog.Server.Mapreduce("STATS", data)
 }
 
-func (s *stats) serverLimitExceeded() error {
+// Reserve a connection slot, or return an error when all of them are taken.
+// The slot is reserved when the connection is accepted and not only once its
+// SSH handshake is through, otherwise a burst of clients connecting at the
+// same time exceeds the limit.
+func (s *stats) reserveConnection() error {
 	s.mutex.Lock()
 	defer s.mutex.Unlock()
 
@@ -61,6 +66,7 @@ func (s *stats) serverLimitExceeded() error {
 		return fmt.Errorf("Exceeded max allowed concurrent connections of %d",
 			config.Server.MaxConnections)
 	}
+	s.currentConnections++
 	return nil
 }
 
